@@ -43,6 +43,9 @@ def walk_local(node: ast.AST, include_root: bool = True) -> Iterator[ast.AST]:
 def body_walk(func: ast.AST) -> Iterator[ast.AST]:
     """All nodes of a function body (excluding nested defs' bodies, decorators, args)."""
     for stmt in getattr(func, "body", []):
+        if isinstance(stmt, (ast.FunctionDef, ast.AsyncFunctionDef, ast.ClassDef)):
+            yield stmt  # the definition statement itself, not its body
+            continue
         yield from walk_local(stmt)
 
 
